@@ -357,13 +357,21 @@ inductive VP where
   | and (r : Vec) (subs : List VP)
   | or (subs : List VP)
 
+/-- A vector in a box. `Vec` is a function type; a recursive definition *returning* a `Vec` would be
+    compiled with the lookup index as an extra argument and re-run on every lookup. Returning a
+    structure makes the driver compute the vector once. -/
+structure VecBox where
+  v : Vec
+
 /-- `repPred.getCommits`: placeholders for the responses this Rep needs. -/
-def placeTerms : List Term → Vec → Vec
-  | [], r => r
+def placeTermsB : List Term → Vec → VecBox
+  | [], r => ⟨r⟩
   | t :: ts, r =>
     match r t.s with
-    | some _ => placeTerms ts r
-    | none => placeTerms ts (r.set t.s 0)
+    | some _ => placeTermsB ts r
+    | none => placeTermsB ts (r.set t.s 0)
+
+def placeTerms (ts : List Term) (r : Vec) : Vec := (placeTermsB ts r).v
 
 mutual
 /-- `Predicate.getCommits(prf, pr)`. -/
@@ -372,7 +380,7 @@ def getCommits (E : Params) : Pred → Option Vec → VCtx → Except Err (VCtx 
     match st.get E.cd.plen E.cd.decP with
     | .error e => .error e
     | .ok (V, st') =>
-      let r := placeTerms ts (mkVec pr)
+      let r := (placeTermsB ts (mkVec pr)).v
       .ok (st', .rep V r, r)
   | .and ps, pr, st =>
     match getCommitsAnd E ps (mkVec pr) st with
